@@ -63,13 +63,17 @@ KV_VARIANTS = [
     # keys on which str.lower() and str.casefold() differ, quoted and bare (the grammar admits \xc0-\xff in bare words)
     [("Straße_Name", "x", True, True), ("GRÖSSE", "y", True, True), ("maße", "1", True, True), ("masse", "2", True, True)],
     [("größe", "10", False, False), ("ÀÉÎ_key", "v", False, True), ("µm", "micro", True, True)],
+    [("'inner'", "'quoted value'", True, True), ("k", "'a' 'b'", True, True)],
 ]
 CONFIG_VARIANTS = [
     [("MS_ERRORFILE", "stderr")],
     [("MS_ERRORFILE", "stderr"), ("PROJ_LIB", "/usr/share/proj")],
     [("ON_MISSING_DATA", "FAIL"), ("on_missing_data", "LOG")],
+    [("MS_ERRORFILE", "'stderr'")],
 ]
-PROJ_VARIANTS = [[], ["init=epsg:4326"], ["proj=utm", "zone=15"], "AUTO"]
+PROJ_VARIANTS = [[], ["init=epsg:4326"], ["proj=utm", "zone=15"], "AUTO",
+                 # strings whose content itself begins and ends with the other quote: only the OUTER quotes go
+                 ["'init=epsg:4326'", "'+proj=merc' '+ellps=WGS84'"]]
 PTS_VARIANTS = [[], [(1, 2)], [(1, 2), (3.5, -4)], [(0, 0), (10, 0), (10, 10)]]
 REPEATED_VALUES = ["BANDS=1,2,3", "two words", "x"]
 
@@ -300,7 +304,10 @@ NUM_SPELLINGS = [("+1", 1), ("007", 7), ("1.0", 1.0), ("1e3", 1000.0), ("1E3", 1
                  ("0.00001", 1e-05), ("10000000000000000.0", 1e16), ("1e22", 1e22), ("0.00000015", 1.5e-07), ("-0.00002", -2e-05), ("2.5e+17", 2.5e17),
                  # doubles that need 16 / 17 significant digits
                  ("0.30000000000000004", 0.30000000000000004), ("-20037508.342789244", -20037508.342789244), ("559082264.0287178", 559082264.0287178),
-                 ("0.1", 0.1), ("1.0000000000000002", 1.0000000000000002)]
+                 ("0.1", 0.1), ("1.0000000000000002", 1.0000000000000002),
+                 # small values with many significant digits (repr uses an exponent AND 14-17 digits), and very small ones
+                 ("0.000012345678901", 1.2345678901e-05), ("3.3333333333333335e-05", 3.3333333333333335e-05), ("0.00000000001", 1e-11),
+                 ("-4.9406564584124654e-300", -4.9406564584124654e-300), ("1.7976931348623157e308", 1.7976931348623157e308)]
 
 
 def s5(otype):
@@ -325,7 +332,9 @@ def s5(otype):
             elif a.kind == "string":
                 for sv in ("UPPER", "MiXeD", "with  two  spaces", " lead", "trail ", "tab\there", "semi;colon", "back\\slash", "pct%age", "[not closed", "(paren", "{brace", "/slash",
                            # values that begin and end with a quote character of the kind not used to write them
-                           "'a','b'", "'[x]' = 'y'", "'q'", "'"):
+                           "'a','b'", "'[x]' = 'y'", "'q'", "'",
+                           # look-alikes of a hex colour (5 and 7 digits) and the other keyword-valued words
+                           "#ABCDE", "#ABCDEF1", "#abcdefg", "Selected", "HILITE", "hilite"):
                     yield ("S5 %s.%s string" % (otype, s.key), Block(otype, [kw(s.key, V.Rep([("str", sv)], sv, ["qstr"]))]))
                 if any(b.kind in ("expression", "regex", "attribute") for b in s.alts):
                     # quoted strings that begin and end like another lexical class of the same slot without being a member of it
